@@ -32,3 +32,17 @@ for k in old:
         new[k] = h(it.signature + it.body)
 json.dump(new, open(p, "w"), indent=1)
 print(len(new) - 1, "items")
+# every extracted item of every unit (comment-free, whitespace-normalised): a difference makes the quick tier
+# run the unit's bounded routines in addition to the proof ("changed code gets a second opinion from the real code")
+items = {}
+for m in sorted(mods):
+    u = getattr(importlib.import_module("specs." + m), "UNIT", None)
+    if u is None:
+        continue
+    try:
+        u.generate(findings=False)
+    except Exception as e:
+        print("skip", m, str(e)[:100]); continue
+    items[u.name] = {"%s::%s" % (e["file"], e["item"]): e["norm_sha256_16"] for e in u.extracted}
+json.dump(items, open(os.path.join(ROOT, "specs", "item_baseline.json"), "w"), indent=1, sort_keys=True)
+print(sum(len(v) for v in items.values()), "extracted items in", len(items), "units")
